@@ -19,6 +19,7 @@ pub fn plan() -> Plan {
         thorough_histories: 60_000,
         s5: Some((2, 30, s4common::s5_default(false, 0))),
         enumerate_session_end: None,
+        enumerate_symbols: None,
     }
 }
 
